@@ -135,7 +135,13 @@ def replay_case(case):
 
 
 def _replay_chunk(cases):
-    return [replay_case(c) for c in cases]
+    out = []
+    for c in cases:
+        try:
+            out.append(replay_case(c))
+        except Exception as e:   # the implementation raises on a valid case: a verdict, not a crash of the check
+            out.append(([("raises", {"entry": "run_pelt / PELT", "error": f"{type(e).__name__}: {e}"[:300]})], [], False))
+    return out
 
 
 # ----------------------------------------------------------------------------- stage C traces
@@ -328,9 +334,12 @@ def _rec(args):
     import warnings
 
     warnings.filterwarnings("ignore")
-    if kind == "long":
-        return record_long(seed, count)
-    return record_r1(seed, count, nmax) if kind == "r1" else record_r3(seed, count, nmax)
+    try:
+        if kind == "long":
+            return record_long(seed, count)
+        return record_r1(seed, count, nmax) if kind == "r1" else record_r3(seed, count, nmax)
+    except Exception as e:   # PELT raises on a valid input inside a recorder: a verdict (the batch is lost)
+        return [{"id": f"{kind}-{seed}-raises", "error": f"{type(e).__name__}: {e}"[:300], "n": 0, "recorder": kind}]
 
 
 # ----------------------------------------------------------------------------- driver
